@@ -1,7 +1,8 @@
-SPECIFICATION Spec
+SPECIFICATION MCSpec
 CONSTANTS
   K = 3
   Classes <- MCClasses
+  Limits <- MCLimits
   Mut = "none"
-INVARIANTS TypeOK ContractHonoured GaugeExact GaugeReturns NoHandlerWhenBlocked HandlerOnce ExitOnce ErrorTraced FallbackProduced
+INVARIANTS TypeOK ContractHonoured GaugeExact GaugeReturns NoHandlerWhenBlocked HandlerOnce ExitOnce ErrorTraced FallbackProduced SystemProtects ClientNeverSystemBlocked BlockHasCause InboundExact
 CHECK_DEADLOCK FALSE
